@@ -181,7 +181,10 @@ def build(run):
     # "a loaded rule": Rule.load rebuilds the expression tree unconditionally from the CURRENT antecedent text (driver shared with C13)
     from props import C13
     for fq, f in (("rule.Antecedent.activation_degree", verify_activation_degree), ("rule.Rule.activate_with", verify_activate_with),
-                  ("factory.FunctionFactory/and_or_table", verify_and_or_table), ("rule.Rule.load", C13.verify_rule_load)):
+                  ("factory.FunctionFactory/and_or_table", verify_and_or_table), ("rule.Rule.load", C13.verify_rule_load),
+                  # postfix text -> tree: every node is the standard postfix reading of its own token span (proposition = variable is hedge* term with the hedges in
+                  # text order; operator: right = the tree ending just before it, left = the tree ending where right begins) - driver shared with C16
+                  ("rule.Antecedent.load", lambda r: __import__("props.C16", fromlist=["x"]).verify_antecedent_load(r, RP=rp))):
         try:
             f(run)
         except Unsupported as ex_:
